@@ -137,7 +137,7 @@ def evalAud (kv : List (String × String)) : Option String := do
 def evalHandler (kv : List (String × String)) : Option String := do
   let n ← lookup kv "name"
   match handlerPaths.find? (·.1 = n) with
-  | some (_, ps) => pure (";".intercalate (ps.map fun p => ",".intercalate p))
+  | some (_, ps) => pure (";".intercalate (ps.map fun p => ",".intercalate (p.map Ev.show)))
   | none => pure "unknown-handler"
 
 def eval (line : String) : Option String :=
